@@ -157,9 +157,19 @@ async fn judged_send(
 }
 
 async fn answer_if_req(sock: &mut Sock, peers: &[Peer], who: Option<usize>) {
+    answer_if_req_with(sock, peers, who, false).await
+}
+
+/// `malformed`: the server's reply lacks the empty delimiter; recv reports an error, the
+/// server stays connected and stays in the rotation.
+async fn answer_if_req_with(sock: &mut Sock, peers: &[Peer], who: Option<usize>, malformed: bool) {
     if sock.ty() == "REQ" {
         if let Some(i) = who {
-            peers[i].send(&[vec![], b"ok".to_vec()]);
+            if malformed {
+                peers[i].send(&[b"no-delimiter".to_vec(), b"ok".to_vec()]);
+            } else {
+                peers[i].send(&[vec![], b"ok".to_vec()]);
+            }
             let _ = recv_now(sock).await;
         }
     }
@@ -256,7 +266,11 @@ async fn run(ctx: &mut Ctx, ty: &str, npeers: usize, seed: u64, case: &Value) {
                 continue;
             }
         }
-        answer_if_req(&mut sock, &peers, who).await;
+        let malformed = ty == "REQ" && r.chance(1, 7);
+        if malformed {
+            ctx.count("req_malformed_replies");
+        }
+        answer_if_req_with(&mut sock, &peers, who, malformed).await;
         if dead.iter().any(|d| *d) {
             // after a death only "exactly one live peer, exact bytes" is judged here
             // (done inside judged_send); rotation over the survivors:
@@ -483,6 +497,7 @@ impl Prop for C10 {
             ("zero_peer_sends", 18),
             ("late_joiners", 100),
             ("reconnects_under_the_same_identity", 24),
+            ("req_malformed_replies", 50),
         ]
     }
 }
